@@ -17,7 +17,8 @@ RULE = (
     "regtest on/off, extra script 0..110 bytes, reward None / explicit <= subsidy / explicit > subsidy, witness root None/32 bytes; the "
     "result is parsed by the reference parser: one input with null outpoint, script starts with CScript()<<height, <= 100 bytes "
     "else refused, default value == subsidy(height, 210000|150), reward > subsidy refused, commitment output 6a24aa21a9ed||root "
-    "and reserved-value witness iff a root is supplied. block: header fields over full ranges + 1..50 generated legacy/segwit txs "
+    "and reserved-value witness iff a root is supplied; one case in six uses the call form WITHOUT a height (explicit reward): script as "
+    "given, <= 100 bytes else refused, value as given, commitment iff a root is supplied (a refusal of that form is allowed). block: header fields over full ranges + 1..50 generated legacy/segwit txs "
     "(duplicates allowed): block_header/block_header_deser inverse, block_deser(block_ser) returns the same header, tx count, "
     "order, txid/wtxid/raw. mine-block: integrations.mine_block against a scripted RPC; the submitted block's merkle root, "
     "BIP34 height, subsidy and BIP141 commitment equal the reference values. Non-trivial: list length with an odd inner level; "
